@@ -80,6 +80,13 @@ void ezc3d::c3d::write(const std::string& filePath) const
     // Write the parameters
     this->parameters().write(f);
 
+    // The first block of the data is only known now: report it in the header (word 9)
+    std::streampos dataPosition(f.tellg());
+    int dataStartBlock(static_cast<int>(dataPosition)/512 + 1);
+    f.seekg(8*ezc3d::DATA_TYPE::WORD);
+    f.write(reinterpret_cast<const char*>(&dataStartBlock), 1*ezc3d::DATA_TYPE::WORD);
+    f.seekg(dataPosition);
+
     // Write the data
     this->data().write(f);
 
